@@ -278,6 +278,8 @@ pub fn pinned(prop: &str) -> Vec<SProg> {
             v.push(sp(vec![vec![Join(1)], vec![Lock(0), Lock(1), Fail(1), Unlock(1), Unlock(0)]]));
             v.push(sp(vec![vec![Write, Fail(0), RwUnlock], vec![Read, RwUnlock]]));
             v.push(sp(vec![vec![Recv], vec![Fail(1)]]));
+            // two failures in one execution: a thread fails, its destructor has to wait for a lock, and the holder fails too
+            v.push(sp(vec![vec![Lock(0), Unpark(1), Yield, Fail(2), Unlock(0), Join(1)], vec![Park, FailDropLock(1, 0)]]));
             v.push(sp(vec![vec![Park], vec![Fail(1)]]));
             v.push(sp(vec![vec![Lock(0), CvWait, Unlock(0)], vec![Fail(1)]]));
             v.push(sp(vec![vec![Lock(0), FailInCell(0), Unlock(0)], vec![Lock(0), Unlock(0)]]));
